@@ -93,3 +93,10 @@ Proof.
   split; [apply NumTok.dec_arith; Lia.lia|split; [apply NumTok.dec_immediate; Lia.lia|apply NumTok.hex_immediate; Lia.lia]].
 Qed.
 Print Assumptions C11_number_literals.
+
+(* ---- resolve_constants as the source has it (Gen/Guards.v): evaluated with position None against ChainMap(constants, REGISTERS),
+   after the three refusals (non-arithmetic, register name, number) *)
+From BB Require Gen.Guards Proofs.Guards.
+Theorem C11_resolve_constants_from_source : Proofs.Guards.resolve_constants_from_source_stmt.
+Proof. exact Proofs.Guards.resolve_constants_from_source. Qed.
+Print Assumptions C11_resolve_constants_from_source.
